@@ -62,6 +62,37 @@ def add(run, tier, positions=False):
     lconc = Concrete('calmjs.parse.lexers.es5:Lexer.input', lcall, post, lambda tier, seed: [(t,) for t in EDGE],
                      bound='%d edge texts' % len(EDGE))
     verify_functions(run, cs, {}, {conc.qualname: conc, lconc.qualname: lconc}, tier=tier)
+    # the stream helper hands the parser exactly what the stream gave it (io.read; contracts/io.py)
+    import contracts.io as cio_
+    iomod = importlib.import_module('calmjs.parse.io')
+    rcs, _, _ = cio_.build(iomod)
+    verify_functions(run, [c for c in rcs if c.funcname == 'read'], {}, {}, tier=tier)
+    import io as _io
+    walkers = importlib.import_module('calmjs.parse.walkers')
+    rw = walkers.ReprWalker()
+    texts = ['function f() { return\x0cx }', 'a = 1\x0bb = 2', 'x = "a\\\r\nb";\r\ny = 1;', 'a\x85b', 'var a = 1;\r\nvar b;\rvar c\n', 'x = 1 \x1c y',
+             '\ufeffa;\n', 'a;\n\n', 's = "\x0c";']
+
+    def outcome(fn):
+        try:
+            return ('tree', rw.walk(fn(), pos=True).replace(', sourcepath=None', ''))      # read() records the (absent) stream name
+        except Exception as e:
+            return ('error', type(e).__name__, str(e).split(' in ')[0][:80])
+    m = 0
+    for t in texts:
+        m += 1
+        direct = outcome(lambda: es5.parse(t))
+        via = outcome(lambda: es5.read(_io.StringIO(t)))
+        if direct != via:
+            why = 'read(stream) of %r gives %s, parse(text) gives %s' % (t, str(via)[:80], str(direct)[:80])
+            run.failed('rt.read_equals_parse', 'E4/bounded', repr(t), dict(text=t, problem=why), observed=why,
+                       required='the stream helper parses exactly the text of the stream', replayed=True)
+    run.bounded_check('rt.read_equals_parse', '%d texts with control characters, CR / CRLF line ends and a byte order mark' % len(texts), m)
+    # every parse() call allocates its own Parser / Lexer and nothing of a parse outlives it (ownership obligations of C15):
+    # what is decided for one parse holds for every parse, whatever was parsed before
+    from .c14 import frame_obligations as _fo
+    import contracts.frames as _cf
+    _fo(run, _cf.C15, 'C15')
     if positions:
         import contracts.lexer as cl
         verify_functions(run, cl.token_bookkeeping(lexmod), {}, {}, tier=tier)
